@@ -503,6 +503,11 @@ def generate(log=print, n_bytes=None):
     lock_src = os.path.join(REPO, "Cargo.lock")
     import shutil
     shutil.copyfile(lock_src, os.path.join(crate_dir, "Cargo.lock"))
+    tin = os.path.join(crate_dir, "Cargo.toml.in")
+    if os.path.exists(tin):
+        text = open(tin).read().replace("@REPO@", REPO)
+        if open(os.path.join(crate_dir, "Cargo.toml")).read() != text:
+            open(os.path.join(crate_dir, "Cargo.toml"), "w").write(text)
     mods = [(mp, parse_module(files)) for mp, files in discover_modules()]
     dropped = set()
     target = os.path.join(OUT, "generated_walk.rs")
